@@ -16,6 +16,8 @@ from slimta.smtp.io import IO
 from slimta.smtp import ConnectionLost
 
 from engine.result import Result, b2s, s2b
+from engine.seq import ScriptSocket, AllSegmentations
+from slimta.smtp import MessageTooBig
 
 PROPERTY = 'C05'
 LEVEL = 'exploration'
@@ -36,7 +38,7 @@ RULE = ('every byte string over the alphabet up to max_len x every split into se
         'boundaries x every suffix x every recv_buffer/socket division x all segmentations (state '
         'graph of the real DataReader); a case (message, suffix) is non-trivial when the message has a '
         'line-leading dot, a bare CR or LF, no final CRLF, or is empty')
-ASSUMPTIONS = ['max_size=None here (the size limit path is C09)',
+ASSUMPTIONS = ['the state-graph part runs with max_size=None; the reader with a size limit is explored by all segmentations of the real recv() for messages up to length 4 (server-level behaviour with a limit is C09)',
                'bytes outside the alphabet behave like "a" (thorough adds one 8-bit symbol)']
 
 
@@ -210,6 +212,60 @@ def check_case(msg, suffix, res, max_parts):
     return out
 
 
+# ---- the reader with a size limit: the framing obligations are the same (consume exactly up to the end-of-data line,
+# leave the rest, independent of segmentation); too big or not is decided by the data bytes on the wire
+def sized_body(max_size, prefix):
+    def body(sock):
+        io = IO(sock, ('peer', 0))
+        io.recv_buffer = prefix
+        r = DataReader(io, max_size)
+        try:
+            data = r.recv()
+            verdict = ('ok', data)
+        except MessageTooBig:
+            verdict = ('too-big',)
+        except ConnectionLost:
+            verdict = ('connection-lost',)
+        return (verdict, io.recv_buffer + sock.unread())
+    return body
+
+
+def check_sized(msg, suffix, max_size, res):
+    out = []
+    wire = ref_stuff(msg)
+    data_wire = wire[:-3]                      # what precedes the end-of-data line
+    stream = wire + suffix
+    exp = expected_data(msg)
+    want = set()
+    if len(data_wire) > max_size:
+        want.add((('too-big',), suffix))
+    else:
+        for d in exp:
+            want.add((('ok', d), suffix))
+    outcomes = set()
+    for b in range(0, len(stream) + 1):
+        # the first b bytes are already in the IO object's buffer when the reader starts, the rest arrives in any segmentation
+        rest = stream[b:]
+        ex = AllSegmentations(sized_body(max_size, stream[:b]), rest, make_sock=lambda ctl, rest=rest: ScriptSocket(rest, ctl, eof=True))
+        outs = ex.explore()
+        outcomes |= outs
+        res.evaluations += ex.execs
+        res.states += len(ex.memo)
+        res.transitions += ex.transitions
+        res.traces_validated += ex.validated
+    for o in outcomes:
+        res.outcome(('sized', o[0][0], o[1] == suffix))
+    bad = [o for o in outcomes if o not in want]
+    if bad or len(outcomes) != 1:
+        o = sorted(bad or outcomes, key=repr)[0]
+        kind = 'segmentation-dependent' if not bad else ('leftover-mismatch' if o[1] != suffix else
+                                                        ('size-verdict' if (o[0][0] == 'too-big') != (len(data_wire) > max_size) else 'data-mismatch'))
+        out.append(({'side': 'reader-with-size-limit', 'kind': kind, 'msg_class': classify(msg), 'over_limit': len(data_wire) > max_size},
+                    'message %r suffix %r max_size %d wire %r: outcomes %r, expected %r' % (msg, suffix, max_size, stream, sorted(outcomes, key=repr)[:4], sorted(want, key=repr)),
+                    {'msg': b2s(msg), 'suffix': b2s(suffix), 'max_size': max_size}))
+    return out
+
+
 def messages(L, alphabet):
     for n in range(0, L + 1):
         for tup in itertools.product(alphabet, repeat=n):
@@ -221,11 +277,24 @@ def configs(tier, seed):
     cfgs = [{'L': L, 'part': k, 'of': NPARTS, 'eight': False} for k in range(NPARTS)]
     if tier == 'thorough':
         cfgs += [{'L': 6, 'part': k, 'of': 16, 'eight': True} for k in range(16)]
+    cfgs += [{'sized': True, 'L': 3 if tier == 'quick' else 4, 'part': k, 'of': 16} for k in range(16)]
     return cfgs
 
 
 def run_config(cfg, tier, seed):
     res = Result()
+    if cfg.get('sized'):
+        for idx, msg in enumerate(messages(cfg['L'], ALPHABET)):
+            if idx % cfg['of'] != cfg['part']:
+                continue
+            for suffix in (b'', b'NOOP\r\n', b'.\r\n'):
+                for max_size in (2, 4):
+                    res.interesting(('sized', msg, suffix, max_size))
+                    res.count('sized_cases')
+                    for sig, text, rep in check_sized(msg, suffix, max_size, res):
+                        res.violation(sig, text, rep)
+        res.sample({'reader_with_size_limit': True, 'message_length': cfg['L'], 'max_size': [2, 4]})
+        return res.as_dict()
     alphabet = list(ALPHABET)
     if cfg['eight']:
         alphabet[3] = b'\xe9'
@@ -246,6 +315,11 @@ def run_config(cfg, tier, seed):
 
 def replay(rep):
     res = Result()
+    if rep.get('max_size') is not None:
+        vs = check_sized(s2b(rep['msg']), s2b(rep['suffix']), rep['max_size'], res)
+        if vs:
+            return True, vs[0][1]
+        return False, 'the reader with a size limit consumed exactly the message and its end-of-data line under every segmentation'
     vs = check_case(s2b(rep['msg']), s2b(rep['suffix']), res, None)
     if vs:
         return True, vs[0][1]
